@@ -105,3 +105,22 @@ def run(ctx: Ctx) -> int:
                   assumptions=["translator harness/tables.py prints what it evaluated",
                                "verdicts do not depend on PDU fields outside the key (covered by the handler "
                                "correspondence suites with random field values)"])
+
+
+def replay(ctx: Ctx, path: str) -> int:
+    """the space is finite and evaluated completely: re-evaluate it and look for the recorded signature"""
+    import json
+    obj = json.load(open(path))
+    sig = obj.get("signature")
+    if sig is None or obj.get("kind", "").startswith("proof"):
+        print(f"replay {path}: no input recorded ({obj.get('kind')}); theorem/table problem: "
+              f"{json.dumps(obj.get('lean_problems', []))[:500]}")
+        return 1
+    explore(ctx)
+    now = sorted({f["sig"] for f in ctx.failures})
+    if sig in now:
+        print(f"VIOLATION property=C20 replay={path}")
+        print("reproduced:", sig)
+        return 1
+    print(f"not reproduced on the current tree (signatures now: {now[:5]})")
+    return 0
